@@ -87,10 +87,11 @@ func fieldOf(it item, name string) string {
 	return "?"
 }
 
-// diffItems compares expected and decoded items as multisets (every item exactly once, under
+// diffItemsIdx compares expected and decoded items as multisets (every item exactly once, under
 // its own resource and scope, every listed field identical). It returns "" when they agree,
-// otherwise a finding-key suffix naming the failing class and a message.
-func diffItems(exp, got []item) (key, msg string) {
+// otherwise a finding-key suffix naming the failing class, a message and the index of the expected
+// item concerned (-1 when there is none).
+func diffItemsIdx(exp, got []item) (key, msg string, idx int) {
 	used := make([]bool, len(got))
 	var expLeft, gotLeft []int
 	for i := range exp {
@@ -114,25 +115,25 @@ func diffItems(exp, got []item) (key, msg string) {
 	}
 	switch {
 	case len(expLeft) == 0 && len(gotLeft) == 0:
-		return "", ""
+		return "", "", -1
 	case len(gotLeft) == 0:
-		return "grouping|item-lost", fmt.Sprintf("%d of %d items not recovered; first: %s", len(expLeft), len(exp), exp[expLeft[0]])
+		return "grouping|item-lost", fmt.Sprintf("%d of %d items not recovered; first: %s", len(expLeft), len(exp), exp[expLeft[0]]), expLeft[0]
 	case len(expLeft) == 0:
 		g := got[gotLeft[0]]
 		for i := range exp {
 			d := diffComponents(exp[i], g)
 			if len(d) == 0 {
-				return "grouping|item-duplicated", fmt.Sprintf("decoded %d items for %d inputs; recovered twice: %s", len(got), len(exp), g)
+				return "grouping|item-duplicated", fmt.Sprintf("decoded %d items for %d inputs; recovered twice: %s", len(got), len(exp), g), i
 			}
 		}
 		for i := range exp {
 			e, gg := exp[i], g
 			e.Res, e.Scope, gg.Res, gg.Scope = "", "", "", ""
 			if len(diffComponents(e, gg)) == 0 {
-				return "grouping|item-duplicated", fmt.Sprintf("decoded %d items for %d inputs; item also appears under another resource/scope: %s", len(got), len(exp), g)
+				return "grouping|item-duplicated", fmt.Sprintf("decoded %d items for %d inputs; item also appears under another resource/scope: %s", len(got), len(exp), g), i
 			}
 		}
-		return "grouping|phantom-item", fmt.Sprintf("decoded %d items for %d inputs; not an input: %s", len(got), len(exp), g)
+		return "grouping|phantom-item", fmt.Sprintf("decoded %d items for %d inputs; not an input: %s", len(got), len(exp), g), -1
 	}
 	// both sides have unmatched items: pair the closest two and name the first difference
 	be, bg, bd := -1, -1, []string(nil)
@@ -149,11 +150,37 @@ func diffItems(exp, got []item) (key, msg string) {
 		c, fieldOf(exp[be], c), fieldOf(got[bg], c), bd, len(expLeft), len(gotLeft))
 	switch c {
 	case "resource":
-		return "grouping|wrong-resource", msg
+		return "grouping|wrong-resource", msg, be
 	case "scope":
-		return "grouping|wrong-scope", msg
+		return "grouping|wrong-scope", msg, be
 	}
-	return "field|" + c, msg
+	return "field|" + c, msg, be
+}
+
+// classKey narrows a "field|<name>" key by the class of the failing variant when the failing
+// field is the one the variant's family varies: "=text" replaces the field name, other text is
+// appended.
+func classKey(key string, idx int, field, class func(i int) string) string {
+	if idx < 0 || !strings.HasPrefix(key, "field|") {
+		return key
+	}
+	f, c := field(idx), class(idx)
+	if c == "" || !(key == "field|"+f || strings.HasPrefix(key, "field|"+f+".")) {
+		return key
+	}
+	if strings.HasPrefix(c, "=") {
+		return "field|" + c[1:]
+	}
+	return key + "|" + c
+}
+
+func enumTierThorough() bool { return os.Getenv("VERIF_TIER") == "thorough" }
+
+func sideName() string {
+	if s := os.Getenv("C13_SIDE"); s != "" {
+		return s
+	}
+	return "unknown"
 }
 
 func itemsOutcome(got []item) string {
